@@ -36,9 +36,11 @@ Holds(c, r) ==
                   LET n == Cardinality({j \in 1..Len(df) : df[j].gen = tc[i].gen /\ df[j].type = tc[i].type})
                       nn == Cardinality({j \in 1..Len(df) : df[j].gen = tc[i].gen /\ df[j].type = tc[i].type \o "/nested"})
                       n2 == Cardinality({j \in 1..Len(df) : df[j].gen = tc[i].gen /\ df[j].type = tc[i].type \o "/nested2"})
-                  IN /\ n = (IF tc[i].type \in {"D01", "D02", "D05", "D06", "D13", "D14", "D25", "D26"} THEN 1 ELSE 0)
-                     /\ nn = (IF tc[i].type \in {"D01", "D05", "D13", "D25"} THEN 1 ELSE 0)
-                     /\ n2 = (IF tc[i].type = "D01" THEN 1 ELSE 0)
+                  IN IF tc[i].gen = "ab"        \* renders nothing from GenerateType and registers one callback for every type it is given
+                     THEN n = 1 /\ nn = 0 /\ n2 = 0
+                     ELSE /\ n = (IF tc[i].type \in {"D01", "D02", "D05", "D06", "D13", "D14", "D25", "D26"} THEN 1 ELSE 0)
+                          /\ nn = (IF tc[i].type \in {"D01", "D05", "D13", "D25"} THEN 1 ELSE 0)
+                          /\ n2 = (IF tc[i].type = "D01" THEN 1 ELSE 0)
          (* ... after the package's last GenerateType / GenerateAliasType of that generator *)
          [] c = "C06_DefersAfterLastCall" ->
                \A i \in 1..Len(o.calls) : \A j \in 1..Len(o.calls) :
